@@ -29,6 +29,7 @@ import (
 	"fmt"
 	"math"
 	"os"
+	"regexp"
 	"sort"
 	"strconv"
 	"strings"
@@ -925,10 +926,23 @@ func wktMsgIs(c *Ctx, url, name string) bool {
 	return got
 }
 
+var wktFullNameRE = regexp.MustCompile(`^[A-Za-z_][A-Za-z0-9_]*(\.[A-Za-z_][A-Za-z0-9_]*)*$`)
+
 func wktMsgName(c *Ctx, url string) string {
 	a := &anypb.Any{TypeUrl: url}
 	got := string(a.MessageName())
 	c.Case("wkt", "msgname", []string{HexB([]byte(url))}, []string{HexB([]byte(got))})
+	// stated independently: the part after the last slash, if it is ident(.ident)*
+	want := url
+	if i := strings.LastIndexByte(url, '/'); i >= 0 {
+		want = url[i+1:]
+	}
+	if !wktFullNameRE.MatchString(want) {
+		want = ""
+	}
+	if got != want {
+		c.PropFail("C45", "MessageName is not the valid full name after the last slash", HexB([]byte(url)), HexB([]byte(got)))
+	}
 	if got != "" {
 		if !protoreflect.FullName(got).IsValid() || !(url == got || strings.HasSuffix(url, "/"+got)) || strings.Contains(got, "/") {
 			c.PropFail("C45", "MessageName returns something that is not the valid name after the last slash", HexB([]byte(url)))
